@@ -2,11 +2,12 @@ import glob, hashlib, json, os, re, shutil, subprocess, tempfile, vlib
 
 THEOREMS = ["Folang.Props.C05." + t for t in """addAll_get addAll_const_get eqsUnion_order_indep rsRegisterNewEI_order_indep
 find_perm_nodup piRegAll_order_indep exhaustive_decision_order_indep lookupRecFac_order_indep strict_sorted_perm_unique
-lookup_unfixed_order_dependent fact_enumSites fact_lookupRecFacCalls""".split()]
+lookup_unfixed_order_dependent fact_enumSites fact_lookupRecFacCalls""".split()] + \
+    ["Folang.Props.C05Compose." + t for t in "runFrom_order_indep run_deterministic one_dependent_stage_breaks orderIndep_of_ignores".split()]
 
 ASSUMPTIONS = [
     "model: dict.Keys/Values/KVs return an arbitrary permutation of the entries; each of the seven consumers in fc (eqsItems->rsRegisterNewEI, eqsUnion x2, scLookupRecFacCur, piRegAll x2, exaustiveCheck) is modelled over the dict model of C14",
-    "composition (order-independent consumers => identical output files) is argued, not proved: the rest of the compiler is a deterministic function of its inputs because the regenerated inventory shows no other enumeration, goroutine, time, rand, environment or %p use",
+    "composition: run_deterministic (Props/C05Compose.lean) proves that a sequence of stages each of which is order independent produces the same output whatever orders the runtime picks at each site and each run; that the real compiler is such a sequence in which only the inventoried sites consult an enumeration is the regenerated inventory, and that each inventoried consumer is order independent is proved on its model - the instantiation of the abstract stages by the real functions is not a theorem: the rest of the compiler is a deterministic function of its inputs because the regenerated inventory shows no other enumeration, goroutine, time, rand, environment or %p use",
     "tie/search: fc built against a dict package whose Keys/Values/KVs return adversarial permutations (overlay; /repo untouched) under several seeds, plus repeated runs of the stock binary: output bytes and exit status must be identical; the exhaustiveness diagnostic may name different cases (allowed by the statement)",
 ]
 
@@ -64,10 +65,10 @@ def run(ctx):
     fcperm = build_fcperm(ctx)
     ctx.assumptions += ASSUMPTIONS
     ctx.partial.append("composition of the consumer theorems into whole-compiler determinism is argued + tested, not proved")
-    ctx.lake_build(["Folang.Props.C05", "Folang.Props.C05Facts"])
-    ctx.audit(THEOREMS, ["Folang.Props.C05", "Folang.Props.C05Facts"])
+    ctx.lake_build(["Folang.Props.C05", "Folang.Props.C05Facts", "Folang.Props.C05Compose"])
+    ctx.audit(THEOREMS, ["Folang.Props.C05", "Folang.Props.C05Facts", "Folang.Props.C05Compose"])
     if ctx.tier == "thorough":
-        ctx.leanchecker(["Folang.Props.C05", "Folang.Props.C05Facts"])
+        ctx.leanchecker(["Folang.Props.C05", "Folang.Props.C05Facts", "Folang.Props.C05Compose"])
     seeds = list(range(0, 6)) if ctx.tier == "quick" else list(range(0, 48))
     seeds = [s + (0 if s < 2 else ctx.seed * 100) for s in seeds]
     repeats = 3 if ctx.tier == "quick" else 12
